@@ -333,6 +333,12 @@ impl BDF {
                 lu_is_current = false;  // Step size changed
             }
 
+            // A step that ends within the step-size resolution of xend ends on it (the run would
+            // otherwise finish a few ulps short of xend)
+            if x_new + 0.1 * (xend - x_new) == x_new {
+                x_new = xend;
+            }
+
             // Step size guard against stagnation
             if (x + 0.1 * h_signed.abs()) == x {
                 status = Status::StepSizeTooSmall;
